@@ -2779,38 +2779,41 @@ def r15(ctx):
                         "the writer puts it - without skipping blank lines first, because the name may be empty")
     rd = repo.fn("Wearable.from_reader", WEARABLES)
     wr = repo.fn("Wearable.to_writer", WEARABLES)
-    rparam = _first_params(rd)[1]
-    reads = [st for st in stores(rd.node, into_defs=False) if st.kind == "assign" and st.value is not None
-             and any(call_attr(c) == "readline" and isinstance(c.func, ast.Attribute) and ap(c.func.value) == rparam
-                     for c in calls(st.value))]
-    ctor = [c for c in calls(rd.node) if kw(c, "name") is not None]
-    ctx.require(len(reads) >= 2 and ctor, "C20.R15: Wearable.from_reader no longer reads a version line and a name line (re-read)")
-    name_var = ap(kw(ctor[0], "name"))
-    version_read = reads[0]
-    name_read = next((st for st in reads if st.path == name_var), None)
-    if name_read is None and name_var:
-        via = {n.id for v in assigned_value(rd.node, name_var) for n in ast.walk(v) if isinstance(n, ast.Name)}
-        name_read = next((st for st in reads[1:] if st.path in via), None)
-    ctx.require(name_read is not None and name_read is not version_read,
-                f"C20.R15: cannot find the readline() that yields `{name_var}` (re-read)")
     # writer: the name is written by the statement right after the version line, with nothing in between
     writes = [c for c in calls(wr.node) if call_attr(c) == "write" and c.args]
     ctx.require(len(writes) >= 2, "C20.R15: Wearable.to_writer shape changed (re-read)")
     w_name_second = any(isinstance(v, ast.FormattedValue) and (ap(v.value) or "").endswith(".name")
                         for v in ast.walk(writes[1].args[0]))
     ctx.require(w_name_second, "C20.R15: Wearable.to_writer no longer writes the name as its second line (re-read)")
-    between = []
-    for st in rd.node.body:
-        if _precedes(version_read.node, st) and _precedes(st, name_read.node):
-            for c in calls(st):
-                consumes = any(ap(a) == rparam for a in c.args) or \
-                    (isinstance(c.func, ast.Attribute) and ap(c.func.value) == rparam and c.func.attr in ("readline", "read", "seek"))
-                if consumes:
-                    between.append(c)
+
+    # reader: the sequence of line reads in evaluation order, helpers that are handed the reader inlined;
+    # a readline inside a loop is a "skip blank lines" scan, a plain one consumes exactly one line
+    def ops_of(f: FuncInfo, rname: str, depth: int, in_loop: bool):
+        out = []
+        for c in (x for x in walk(f.node) if isinstance(x, ast.Call)):
+            looped = in_loop or any(isinstance(a, (ast.While, ast.For, ast.AsyncFor)) for a in ancestors(c) if a is not f.node)
+            if isinstance(c.func, ast.Attribute) and ap(c.func.value) == rname and c.func.attr == "readline":
+                out.append(("scan" if looped else "line", f, c))
+            elif depth < 3 and isinstance(c.func, ast.Attribute) and isinstance(c.func.value, ast.Name) \
+                    and c.func.value.id in ("cls", "self") and f.cls is not None and any(ap(a) == rname for a in c.args):
+                h = _lookup_method(repo, f.cls, c.func.attr)
+                if h is not None:
+                    hp = _first_params(h)
+                    if not any((ap(d) or "").split(".")[-1] == "staticmethod" for d in h.node.decorator_list):
+                        hp = hp[1:]
+                    idx = next(i for i, a in enumerate(c.args) if ap(a) == rname)
+                    if idx < len(hp):
+                        out.extend(ops_of(h, hp[idx], depth + 1, looped))
+        return out
+    seq = ops_of(rd, _first_params(rd)[1], 0, False)
+    lines = [i for i, o in enumerate(seq) if o[0] == "line"]
+    ctx.require(len(lines) >= 2, "C20.R15: Wearable.from_reader no longer reads a version line and a name line (re-read)")
+    between = [o for o in seq[lines[0] + 1:lines[1]] if o[0] == "scan"]
     _ob(ctx, "C20.R15", "Wearable.from_reader: the name is the line right after the version line", not between,
-        ctx.w(rd, between[0]) if between else rd.where,
-        f"`{norm(between[0]) if between else ''}` moves the reader between the version line and the name line: an empty "
-        f"name (a legal value, written as an empty line) is skipped and the permissions header is taken for the name")
+        ctx.w(between[0][1], between[0][2]) if between else rd.where,
+        f"`{norm(between[0][2]) if between else ''}` (a blank-line scan) runs between reading the version line and reading "
+        f"the name line: an empty name (a legal value, written as an empty line) is skipped and the permissions header "
+        f"is taken for the name")
 
 
 def run(ctx):
